@@ -77,6 +77,40 @@ func runC03(p *core.Program, r *core.Report) {
 	chainRules(p, r, "R18", "C10", []string{"C10.R14"}, "value literals are written from the printer's own renderings only")
 }
 
+// commitWitness: every definition of the boolean local v is the constant false, or the constant true at a point dominated
+// by both stores.
+func commitWitness(info *types.Info, g *cfgx.G, sf *core.Func, v *types.Var, pp, np cfgx.Point) bool {
+	if b, ok := v.Type().Underlying().(*types.Basic); !ok || b.Kind() != types.Bool || v.IsField() {
+		return false
+	}
+	defs := core.DefsOf(info, sf.Body, v)
+	if len(defs) == 0 {
+		return false
+	}
+	nTrue := 0
+	for _, d := range defs {
+		if d.Rhs == nil {
+			if d.Kind == "var" {
+				continue // declared without a value: false
+			}
+			return false
+		}
+		tv, isConst := info.Types[d.Rhs]
+		if !isConst || tv.Value == nil || d.Index >= 0 {
+			return false
+		}
+		if tv.Value.String() == "false" {
+			continue
+		}
+		at := g.PointOf(d.Stmt)
+		if !at.Valid() || !g.Dominates(pp, at) || !g.Dominates(np, at) {
+			return false
+		}
+		nTrue++
+	}
+	return nTrue > 0
+}
+
 // c03R8: rendering a snippet registers its imports with the tracker of the
 // writer that renders it, so a snippet must not remember anything a previous
 // rendering resolved: no Frag/IsNil method of pkg/gengo/snippet writes its
@@ -738,6 +772,11 @@ func c03Tracker(p *core.Program, r *core.Report) {
 				v := core.VarOf(info, a.Cond)
 				if v == nil || !a.Val {
 					continue
+				}
+				// a flag that is only ever set (to the constant true) behind both stores: on the edge on which it is true
+				// the name has been committed (`for committed := false; !committed; { …; store; committed = true }`)
+				if commitWitness(info, g, sf, v, pp, np) {
+					return true
 				}
 				v = core.CanonVar(info, sf.Root().Body, v)
 				d, ok := core.SingleDef(info, sf.Root().Body, v)
